@@ -7,18 +7,10 @@ ALL = ["C%02d" % i for i in range(1, 21)]
 TRUSTED = ("trusted base: TLC 1.8; the simulated API server (harness/verifsim, axioms E1-E8, re-checked on every trace by "
            "spec/TraceSync.tla!Axioms); the in-process webhook server; bounds of the TLA+ instances named in the evidence")
 
-CHECKS = {
-    "C02": dict(text="TLC checks the ownership invariants on the request-level model spec/Own.tla (all interleavings with environment "
-                     "writers and stale caches); TLC enumerates every maximal behaviour of the bounded model as a scenario; each is replayed "
-                     "on the real composite controller over the simulated API server and the recorded trace is validated by TLC against "
-                     "spec/TraceSync.tla (monitors C02_WriteSafe, C02_WriteSafeObserved, C02_DeleteUidPrecond, C02_BornOwned). "
-                     "Model checking is the right level: the property quantifies over interleavings at API-call granularity.",
-                ref="DESIGN.md §8 C02", tech="TLA+ model + TLC behaviour enumeration replayed on real code + TLC trace validation"),
-    "C04": dict(text="Same machinery as C02 with the ControllerRef monitors (C04_AdoptOnlyIf, C04_ReleaseShape, C04_OthersKept, "
-                     "C04_OneController, C04_DyingParentPassive, C04_LabelGate, C04_GeneratedLabel); includes two parents racing for one "
-                     "orphan with TLC-chosen request orders, and an anti-vacuity model without the CanAdopt recheck that TLC must reject.",
-                ref="DESIGN.md §8 C04", tech="TLA+ model + TLC behaviour enumeration replayed on real code + TLC trace validation"),
-}
+import sys
+sys.path.insert(0, os.path.join(VERIF, "lib"))
+import props  # noqa: E402
+_, CHECKS = props._discover()
 
 def main():
     checks = []
